@@ -39,6 +39,7 @@ func main() {
 	runRim(f, res)
 	runRim2(f, res)
 	runRim3(f, res)
+	runRim4(f, res)
 	runModels(f, res)
 	if err := res.Write(f.Out); err != nil {
 		lib.Fatal(err)
@@ -89,6 +90,17 @@ func replay(f lib.Flags) int {
 			m.Violate("C07/modepb/UpdateModeValues/writes-old-values", "UpdateModeValues changed the live old ModeValues message (or panicked)", c, c.Stored, ans)
 		}
 		fmt.Printf("replay mode %v -> %s\n", c, ans)
+	case "plant":
+		var c plantCase
+		if err := json.Unmarshal(b, &c); err != nil {
+			lib.Fatal(err)
+		}
+		ans := runPlantCase(c)
+		plantViolation(c, ans, m)
+		if bf, af := runPlantWritten(c); af != bf {
+			m.Violate("C07/openclosepb/UpdatePositions/preset-written-by-call", "applying a preset changed the configured preset messages themselves", c, bf, af)
+		}
+		fmt.Printf("replay plant %v -> %s\n", c, ans)
 	case "events":
 		var es evSeq
 		if err := json.Unmarshal(b, &es); err != nil {
